@@ -774,3 +774,38 @@ def fam_ilu(g, prop, count, types, nmax=8):
             lst.append({"id": "%s-ilu%s%s-%05d-%s" % (prop, kind, "nodrop" if nodrop else "", i, ty), "lines": lines, "n": n})
         out[ty] = lst
     return out
+
+
+# ----------------------------------------------------------------------------- C17
+def fam_ldperm(g, prop, count, types, exhaustive3=False):
+    """?ldperm(job 5) on patterns with power-of-two weights (ties, zero diagonals, structurally singular ones) and on
+    arbitrary magnitudes; orders 1..5"""
+    out = {}
+    for ty, k in split_types(count, types).items():
+        cplx = is_cplx(ty)
+        lst = []
+        cases = []
+        if exhaustive3 and ty == "d":
+            for bits in range(1, 512):
+                cases.append((3, {(i, j) for i in range(3) for j in range(3) if bits >> (3 * i + j) & 1}, "p3"))
+        for i in range(k):
+            n = g.r.randint(1, 5)
+            P = g.pattern(n, n, g.r.choice(["dense", "sparse", "sparse", "zerodiag", "arrow", "band"]))
+            if g.r.random() < 0.75:
+                P = g.ensure_structurally_nonsingular(P, n)
+            if not P:
+                P = {(0, 0)}
+            cases.append((n, P, "r"))
+        for i, (n, P, tag) in enumerate(cases):
+            r = g.r
+            fl = r.random() < 0.2 and tag == "r"
+            span = r.choice([2, 6, 30])
+            A = {}
+            for kk in P:
+                mag = 2.0 ** r.randint(-span, span) * (r.uniform(1, 1.99) if fl else 1.0)
+                sgn = r.choice([1.0, -1.0])
+                A[kk] = (sgn * mag, 0.0) if (not cplx or r.random() < 0.5) else (0.0, sgn * mag)
+            lines = g.mat_lines(A, n, n, "NC", cplx) + ["call ldperm 5", "destroy all", "ledger"]
+            lst.append({"id": "%s-ldperm%s%s-%05d-%s" % (prop, tag, "f" if fl else "", i, ty), "lines": lines, "n": n})
+        out[ty] = lst
+    return out
